@@ -203,6 +203,8 @@ def gen_type(draw, name, opts, allow_const=True, allow_array=True, force=None, t
             t["length"] = draw(st.sampled_from([None, 1]))
     t["char_enc"] = draw(st.sampled_from([None, None, None, "ASCII", "UTF-8", "ISO-8859-1"]))
     t["offset"] = None
+    if t["presence"] == "required" and draw(st.integers(0, 3)) == 0:
+        t["_explicit_presence"] = True    # presence="required" spelled out
     _common_attrs(draw, t, opts)
     return t
 
@@ -344,6 +346,9 @@ def gen_composite(draw, name, opts, types_by_name, depth=0, required=None):
             _common_attrs(draw, el, opts, allow_semantic=False)
         if not _is_const_elem(el, types_by_name) and draw(st.integers(0, 3)) == 0:
             el["offset"] = off + draw(st.sampled_from([0, 1, 3, 8]))
+        if _is_const_elem(el, types_by_name) and draw(st.integers(0, 2)) == 0:
+            # an `offset` attribute on a constant breaks no rule and has no effect: constants are not in the layout
+            el["offset"] = draw(st.sampled_from([0, 1, off, off + 5, 16, 1000]))
         if not _is_const_elem(el, types_by_name):
             if el.get("offset") is not None:
                 off = el["offset"]
@@ -390,6 +395,8 @@ def gen_level_header(draw, name, opts, types_by_name, required, extras_pool):
             el = gen_type(draw, en, opts, allow_const=True, allow_array=True, types_by_name=types_by_name)
         if not _is_const_elem(el, types_by_name) and draw(st.integers(0, 4)) == 0:
             el["offset"] = off + draw(st.sampled_from([0, 1, 2, 5]))
+        if _is_const_elem(el, types_by_name) and draw(st.integers(0, 2)) == 0:
+            el["offset"] = draw(st.sampled_from([0, 1, off, off + 3, 64]))
         if not _is_const_elem(el, types_by_name):
             if el.get("offset") is not None:
                 off = el["offset"]
@@ -468,6 +475,10 @@ def gen_fields(draw, opts, types_by_name, used, max_fields, const_only=False, re
                 f["offset"] = off + draw(st.sampled_from([0, 1, 2, 4, 9]))
                 off = f["offset"]
             off += field_size(f, types_by_name)
+            if f["presence"] == "required" and draw(st.integers(0, 5)) == 0:
+                f["_explicit_presence"] = True
+        elif draw(st.integers(0, 2)) == 0:
+            f["offset"] = draw(st.sampled_from([0, 1, off, off + 7, 500]))   # ignored: a constant field is not in the block
         _common_attrs(draw, f, opts, allow_semantic=False)
         fields.append(f)
     return fields, off
@@ -478,7 +489,7 @@ def gen_level(draw, opts, ctx, depth, is_message, path=()):
     used = set()
     lvl = {}
     const_only = (not is_message) and draw(st.integers(0, 9)) == 0
-    lvl["fields"], min_bl = gen_fields(draw, opts, types_by_name, used, 5 if is_message else 3, const_only=const_only, related=path[-2:])
+    lvl["fields"], min_bl = gen_fields(draw, opts, types_by_name, used, 8 if is_message else 4, const_only=const_only, related=path[-2:])
     lvl["min_block_length"] = min_bl
     lvl["block_length"] = None
     if draw(st.integers(0, 3)) == 0:
@@ -626,6 +637,10 @@ def schemas(draw, special_text=False, odd_literals=False, max_messages=3, allow_
         sch["header_type"] = "messageHeader"
     if sch["header_type"] is not None:
         sch["header_type"] = _refcase(draw, sch["header_type"])
+    # an `offset` attribute on a public type has no effect on the layout of anything that refers to it
+    for t_ in types.values():
+        if t_.get("offset") is None and draw(st.integers(0, 7)) == 0:
+            t_["offset"] = draw(st.sampled_from([0, 1, 4, 9, 100]))
     # declaration order of public types: shuffled (sbeppc resolves by name)
     order = draw(st.permutations(list(types)))
     sch["types"] = [types[k] for k in order]
@@ -708,7 +723,7 @@ def level_xml(lvl, ind):
         return level_xml(l2, ind) + level_xml(l3, ind)
     for f in lvl["fields"]:
         s += pad + "<field" + _a("name", f["name"]) + _a("id", f["id"]) + _a("type", f["type"]) + _a("offset", f["offset"])
-        if f["presence"] != "required":
+        if f["presence"] != "required" or f.get("_explicit_presence"):
             s += _a("presence", f["presence"])
         s += _a("valueRef", f["value_ref"]) + _common_xml(f, False) + "/>\n"
     for g in lvl["groups"]:
